@@ -14,6 +14,7 @@ VERIF = os.path.dirname(os.path.dirname(os.path.abspath(__file__)))
 MUTANTS = [
     ("term_sends_kill", "process.posix.c", "kill(process, SIGTERM)", "kill(process, SIGKILL)", "process_terminate", "C07/process_terminate.sends_sigterm_once"),
     ("kill_sends_term", "process.posix.c", "kill(process, SIGKILL)", "kill(process, SIGTERM)", "process_kill", "C07/process_kill.sends_sigkill_once"),
+    ("wait_wuntraced", "process.posix.c", "waitpid(process, &status, 0)", "waitpid(process, &status, WUNTRACED)", "process_wait", "C01+INV/process_wait.status_means_reaped"),
     ("wait_wnohang", "process.posix.c", "waitpid(process, &status, 0)", "waitpid(process, &status, WNOHANG)", "process_wait", "C01+INV/process_wait.status_means_reaped"),
     ("status_signal_offset", "process.posix.c", "WTERMSIG(status) + 128", "WTERMSIG(status) + 127", "parse_status", "C01/parse_status.signal_plus_128"),
     ("status_exit_mask", "process.posix.c", "WIFEXITED(status) ? WEXITSTATUS(status)", "WIFEXITED(status) ? (WEXITSTATUS(status) & 0x7f)", "parse_status", "C01/parse_status.exit_code_exact"),
